@@ -123,6 +123,11 @@ def handleAlloc : Handler := fun st op args =>
     | none => some (st, "bad-op")
   -- real storage windows of distinct objects are disjoint: what `Separated` (C09.heap_refines_pure) says of the model
   | "h.sep", [] => some (st, "sep=1")
+  -- values: what a player does with its own scratch positions is invisible in a clone and in the source
+  | "clonemcts", [_policy, _seed, ptok] =>
+    match parsePos ptok with
+    | some (p, true) => some (st, if p.winDetails.over then "n/a" else "clone=ok src=ok")
+    | _ => some (st, "bad-pos")
   | "p.obs", [slot] =>
     match slot.toNat? with
     | some k =>
